@@ -16,6 +16,16 @@ NA = {
 }
 
 CLAIMED = {
+ 'C05': dict(
+   technique='deterministic simulation of the disk for the file clause: Var trees from a grammar are written with the real Json/Xdl::write to the in-memory VFS and read back with Json/Xdl::read, with the read chunk a seeded knob (1..64, 255, 4096, 16382) so that the chunk boundary lands in every parser state of small documents; injected open/ENOSPC/EIO faults as a separate relaxed configuration; in-memory encode/decode and an independent strict RFC 8259 parser ride along as payload and oracle',
+   text='Seeded search over value trees (all number classes incl. INT_MIN, denormals, +-DBL_MAX, -0, floats; strings with control characters, quotes, backslashes, slashes, valid and ill-formed UTF-8; identifier keys for XDL) x modes x read chunk x document sizes from 1 byte. The simulator decides the file leg; the in-memory round trip is input-only. Found and fixed three genuine defects (raw control characters, BOM probe on files < 3 bytes, slash in quoted keys). Evidence, not proof.',
+   ref='DESIGN.md 2.6, 5 (C05)',
+   note='Trusted: the independent parser/generator in scen/ref/json_ref.h; the statement\'s equivalence (sign of zero and int/double tag not compared; floats compared as floats).'),
+ 'C06': dict(
+   technique='deterministic simulation of a byte source: generated JSON/XDL texts, their mutations (truncation, deletion, duplication, splicing, byte flips) and raw bytes are fed to the real incremental XdlParser in all 2-chunk cuts (short texts) and seeded k-chunk cuts, through Json::read with a seeded read chunk, and cut short at every prefix; oracles: chunked result = whole result, valid RFC 8259 documents (nesting to 512) accepted with the value of an independent parser, truncated top-level arrays/objects/strings rejected, termination, AddressSanitizer',
+   text='Seeded search over texts x chunkings x prefixes. The chunk/cut dimension is the simulator\'s; totality on random bytes and grammar conformance are input-only and ride on it. Evidence, not proof.',
+   ref='DESIGN.md 5 (C06)',
+   note='Trusted: the independent parser/writer in scen/ref/json_ref.h; texts are NUL-free (the API is C-string based).'),
  'C16': dict(
    technique='deterministic simulation: typed value sequences with byte-order switches written through the real StreamBuffer, File (simulated disk) and Socket (simulated network with seeded fragmented reads, short sends, latency, small send buffers; bytes captured on the wire) operators and read back through the matching readers; reference serializer as oracle for the captured bytes; bit-exact read-back oracle',
    text='Seeded search over sequences of up to 64 typed items (all scalar types with extreme, NaN-payload and random bit patterns, strings, arrays of length 0..100 of each element type) with BIG/LITTLE/NATIVE switches at arbitrary points, in three legs. The simulator contributes the File and Socket legs (partial transfers: Socket >> x must block until sizeof(x) bytes arrived); per-type byte layout is input-only and rides along. Found and fixed one genuine defect (native-order Array<T> writes). Evidence, not proof.',
